@@ -731,6 +731,10 @@ def run_defs(job, r):
                        f'all2 (fun m c => Qeq_bool (volQ {nm}_outpos [c]) '
                        f'(volQ {nm}_inpos (pick [] {nm}_in (group_of {nm}_econv m)))) '
                        f'(map Z.of_nat (seq 0 {P})) {nm}_out'))
+    elif 'ok' in r:
+        # compress() returned False ("compressed to 0 elements"): the compressed mesh is empty;
+        # on the domain of the volume clause that is a violation unless the input has no volume
+        checks.append(('empty_output_volume', f'Qeq_bool (volQ {nm}_inpos {nm}_in) 0'))
     return nm, L, checks
 
 
@@ -828,10 +832,10 @@ def eval_runs(ctx, rjobs, rres):
         vanished = 0
         regime = 'no-output'
         no_merge_domain = False
-        if ok:
-            nc = [v for v in r['node_conv'] if v >= 0]
+        if 'ok' in r:
+            nc = [v for v in r.get('node_conv', []) if v >= 0]
             merged_vertices = len(nc) != len(set(nc))
-            vanished = sum(1 for v in r['elem_conv'] if v < 0)
+            vanished = sum(1 for v in r.get('elem_conv', []) if v < 0)
             # DOMAIN OF THE VOLUME CLAUSE, decided from the input and the parameters only:
             # (a) dist_thresh below the smallest distance of two nodes: no vertices may be merged;
             # (b) cos_thresh above every non-flat dihedral cosine (all-cells rule of
@@ -894,6 +898,16 @@ def eval_runs(ctx, rjobs, rres):
                               'ModelEdge.remove_one_edge on merged cells of a run',
                               signature={'check': 'geo-edge', 'failed': name, 'descr': descr},
                               what='edge removal on a real merged cell disagrees with the model / theorem')
+            elif name == 'empty_output_volume':
+                if regime != 'coplanar-only':
+                    continue
+                ctx.violation('impl-violation', {'jobs': {'runs': [strip_x(job)]}},
+                              'a compressed mesh with the volume of the input (no vertices may be merged, '
+                              'only coplanar faces may be fused)',
+                              'compress() returned False: compressed to 0 elements',
+                              'verified-oracle test (volQ of the input evaluated in Coq)',
+                              signature={'check': 'volume', 'regime': regime, 'failed': name, 'descr': descr},
+                              what='the whole mesh vanished although the thresholds allow no lossy step')
             elif name in ('volume_total', 'volume_per_cell'):
                 if regime != 'coplanar-only':
                     # outside the domain of the volume clause (vertices may be merged, or
@@ -950,6 +964,17 @@ def eval_transfers(ctx, rjobs, rres):
                 nmA = f'A_{rid}_{knn}_{where}'
                 rows = d[where]['rows']
                 M, N = d[where]['shape']
+                if any(b not in (0, 1) for row in rows for b in row):
+                    # the documented matrix is boolean; an entry 2 (duplicate (row, col) pairs summed
+                    # by csr_matrix) no longer matches weights that count entries
+                    sym_mat = {'type': 'matrix', 'run': rid, 'knn': knn, 'where': where}
+                    ctx.violation('impl-violation', {'jobs': {'runs': [strip_x(job)]}},
+                                  'a 0/1 (boolean) conversion matrix',
+                                  'entries %s' % sorted({b for row in rows for b in row}),
+                                  'hypothesis of C20_mean_preserves_const / C20_sum_conserves_total: '
+                                  'the matrix is boolean',
+                                  signature={'check': 'matrix', 'where': where, 'symptom': 'entries not 0/1'},
+                                  what='conversion matrix has entries other than 0 and 1')
                 mat_lines.setdefault(rid, []).append(f'Definition {nmA} : bmat := {cbmat(rows)}.')
                 mat_lines[rid].append(f'Definition {nmA}_T : bmat := transpose {N} {nmA}.')
                 mats[(knn, where)] = (nmA, M, N)
